@@ -20,7 +20,7 @@ pub fn check() -> Check {
 }
 
 fn plan(tier: Tier) -> Vec<Workload> {
-    vec![Workload::new("edits", tier.pick(12_000, 250_000))]
+    vec![Workload::new("edits", tier.pick(60_000, 1_000_000))]
 }
 
 fn replay(ops: &[Op]) -> Session {
